@@ -173,6 +173,96 @@ PROPS["C11"] = dict(
 )
 
 
+
+SRV_ASSUME = ["the scripted transport and listener are the only sources of readiness (deterministic poll-by-poll executor)",
+              "the test service answers as a pure function of the call; histories are recorded at the boundary (socket bytes, service log)"]
+
+PROPS["C08"] = dict(
+    level="exploration",
+    rule=("cases are (1..4 scripted client connections x 0..5 calls each: plain / oneway / error-producing / more-flagged, "
+          "payloads 0..900 bytes; byte streams cut at frame boundaries or arbitrary byte positions; optional EOF) x an order of "
+          "the events {connection released to the listener, next chunk delivered, EOF}; ALL orders for small configurations "
+          "(<= 2000 interleavings), seeded random orders beyond, where events may also be batched (several sockets become "
+          "readable between two polls) or arrive from inside Service::handle (while the server is busy with another call); "
+          "Server::run is polled to quiescence after every step; distinct = hash of (scripts, cuts, step list)"),
+    oracle=("per connection, from a sequential reference of the service: output split at NUL == the answer of every non-oneway "
+            "call in call order (as JSON values; continues:false == absent) and nothing for oneway calls; every write is one "
+            "document + one NUL; at every quiescent point the output is a prefix of that and complete whenever the bytes sent so "
+            "far end on a frame boundary; no frame of another client; the service saw each call exactly once in order; the server "
+            "future is still pending; no panic"),
+    assumptions=SRV_ASSUME,
+    floor_quick=20_000, floor_thorough=1_000_000,
+    steps=[
+        dict(layer="native", monitor="c08", shards_quick=4, shards_thorough=16),
+        dict(layer="miri", monitor="c08", shards_quick=8, shards_thorough=16, budget_quick=16, budget_thorough=128),
+        dict(layer="asan", monitor="c08", shards_thorough=8, tier="thorough"),
+    ],
+)
+
+PROPS["C09"] = dict(
+    level="fault_enumeration",
+    rule=("fault kinds {garbage bytes, malformed frame, wrong parameter types, unknown method, escaped string for a borrowed "
+          "field, invalid UTF-8 in an ignored member, non-object document, truncated frame then EOF, EOF mid-burst, read error, "
+          "write error on the k-th write, fault while the connection is in streaming mode, write error on a stream item, "
+          "oversized frame (lowered-limit build)} x position 0..2 in the faulty client's script x 1..3 healthy clients (plain, "
+          "oneway, error and streaming calls) x event orders (all orders when <= 300, else sampled with batched / in-handle "
+          "arrivals); distinct = hash of (scripts, cuts, fault placement, step list)"),
+    oracle=("relational: run A = full schedule, run B = same schedule with every event of the faulty client deleted; for every "
+            "healthy client output_A == output_B byte for byte, the service saw the same healthy calls, a healthy connection is "
+            "not closed, Server::run is still pending, nothing panics; additionally the healthy clients match the sequential "
+            "reference model of C08/C10"),
+    assumptions=SRV_ASSUME + ["accept() errors are not in the property's fault list and are not injected"],
+    floor_quick=10_000, floor_thorough=500_000,
+    steps=[
+        dict(layer="native", monitor="c09", shards_quick=4, shards_thorough=16),
+        dict(layer="small", monitor="c09", shards_quick=3, shards_thorough=6),
+        dict(layer="miri", monitor="c09", shards_quick=13, shards_thorough=13),
+        dict(layer="asan", monitor="c09", shards_thorough=8, tier="thorough"),
+    ],
+)
+
+PROPS["C10"] = dict(
+    level="exploration",
+    rule=("cases are 1..3 connections with scripts mixing streaming calls (service-side stream controlled by the harness: 0..4 "
+          "items with arbitrary continues flags, ending or never ending, items possibly produced before the call is handled) "
+          "with plain / error / oneway calls pipelined before and behind them, delivered in whole-frame chunks; optional write "
+          "failure at a stream item; x an order of the events {accept, deliver chunk, stream produces item, stream ends}; ALL "
+          "orders for small configurations, seeded random (with batched and in-handle events) beyond; distinct = hash of "
+          "(scripts, cuts, step list)"),
+    oracle=("per-connection sequential model evaluated at EVERY quiescent point: a streaming call's items appear in production "
+            "order with the flags the service set; nothing pipelined behind it is answered before the stream ends; afterwards the "
+            "calls behind it are answered in order, none lost or duplicated (bytes + service log); every complete call of a "
+            "connection not parked behind an open stream is answered (other clients are served while a stream is open); no "
+            "produced item stays undelivered; an open subscription of a writable client is never dropped; after a failed write "
+            "no further write is attempted and the client is dropped"),
+    assumptions=SRV_ASSUME,
+    floor_quick=20_000, floor_thorough=1_000_000,
+    steps=[
+        dict(layer="native", monitor="c10", shards_quick=4, shards_thorough=16),
+        dict(layer="miri", monitor="c10", shards_quick=8, shards_thorough=16, budget_quick=16, budget_thorough=128),
+        dict(layer="asan", monitor="c10", shards_thorough=8, tier="thorough"),
+    ],
+)
+
+PROPS["C18"] = dict(
+    level="exploration",
+    rule=("2..5 connections; flooders deliver bursts of 4..10 complete calls, the others single calls; optional closures (EOF), "
+          "late accepts and streaming calls (transitions); events are applied at quiescent points, batched, or from inside "
+          "Service::handle (arrivals while the server is busy - this is what creates contention); ALL orders for small "
+          "configurations under two arrival patterns, seeded random beyond; every (call, waiting window) pair is one oracle "
+          "evaluation target; distinct = hash of (scripts, step list); distinct service orders are counted separately"),
+    oracle=("logical clock ticks on every event and every handle(); ready(call) = latest of (its bytes entered the transport, "
+            "previous call of the connection served, connection accepted, stream in front of it ended); (a) in a window "
+            "(ready, served) without accept/closure/stream transition no other connection is served twice; (b) in general at "
+            "most N*(T+1) other calls are served in the window; (c) at every quiescent point no ready call is unserved"),
+    assumptions=SRV_ASSUME + ["a transition is attributed to a window conservatively: from the tick its event is applied until the next quiescent point"],
+    floor_quick=20_000, floor_thorough=1_000_000,
+    steps=[
+        dict(layer="native", monitor="c18", shards_quick=4, shards_thorough=16),
+    ],
+)
+
+
 LEVEL_TEXT = {}
 
 def _na():
